@@ -21,7 +21,7 @@ pub static DEF: CheckDef = CheckDef {
            smooth family adds div, powf, ln, exp, reciprocal, sigmoid, softmax with operand domains enforced from \
            actual values), mixed tracked/untracked leaves; readme: the README loop with random constants, shapes, \
            threshold and iteration count (data-dependent branch); chain: self-product chains of depth 2..60; fanin: \
-           wide sums of products sharing leaves; deep-chain: multiplication chains of depth 500 / 2000 / 30000 / 100000 differentiated in a process of their own on an 8 MiB stack. Seeds omitted / ones / non-uniform integers. Non-trivial = some \
+           wide sums of products sharing leaves; dag-toggles: random DAGs in which handles are used while untracked and while tracked (start/stop_tracking between uses, untracked() results); deep-chain: multiplication chains of depth 500 / 2000 / 30000 / 100000 differentiated in a process of their own on an 8 MiB stack. Seeds omitted / ones / non-uniform integers. Non-trivial = some \
            tracked leaf received a non-zero gradient and the graph has at least two root-to-leaf paths; distinct = \
            distinct (program text without data, seed kind).",
     floors,
@@ -51,6 +51,7 @@ fn families(t: Tier) -> Vec<(&'static str, u64)> {
         ("readme", t.n(3_000, 60_000)),
         ("chain", t.n(400, 6_000)),
         ("fanin", t.n(600, 20_000)),
+        ("dag-toggles", t.n(10_000, 400_000)),
         ("deep-chain", 4),
     ]
 }
@@ -202,6 +203,25 @@ pub fn gen(ctx: &Ctx, fam: &str, k: u64, r: &mut Rng) -> Program {
                 cfg.max_dim = 2;
             }
             gen_program(r, &cfg)
+        }
+        "dag-toggles" => {
+            // the same array used through an untracked and a tracked handle in one graph (a detached alias, a frozen
+            // parameter that is unfrozen later), untracked()/tracked() intermediates: derivatives flow along operands
+            // that were tracked when used, and only along those
+            let mut cfg = GenCfg::exact();
+            cfg.toggles = true;
+            cfg.untracked_eighths = 3;
+            cfg.max_ops = 10;
+            let mut p = gen_program(r, &cfg);
+            let root = p.root();
+            for i in [root, p.base(root)] {
+                if let Node::Op { post, .. } = &mut p.nodes[i] {
+                    if *post == Some(false) {
+                        *post = None;
+                    }
+                }
+            }
+            p
         }
         "readme" => readme_program(r),
         "chain" => chain_program(r, k),
